@@ -15,6 +15,7 @@ re-modelled here (it is C17's); the real-valued configurations take its *result*
 Core Lean only; executed by the driver, reasoned about in Lemmas/XConfig*.lean.
 -/
 import PybropsModel.Np
+import PybropsModel.Model.Sampling
 
 namespace XConfig
 
@@ -146,6 +147,30 @@ def sampleMateInteger (decn : List Nat) (xmap : Rows) (nc : Nat) (rem : List Nat
 def sampleMateReal (sus : List Nat) (xmap : Rows) (nc : Nat) (perm2 : List Nat) : Except String Rows :=
   if sus.length ≠ nc then .error "value" else lookup xmap (Np.take perm2 sus)
 
+/-! ### the real-valued configurations with the sampler inside the model
+`stochastic_universal_sampling(numpy.arange(len(decn)), decn, size, rng)` is C17's `Sampling.susDraws`
+(the code after fix fc545079): `a = arange(n)`, so `a[sel] = sel`.  Oracle inputs of the sampler:
+`sigma = decn.argsort()[::-1]`, `offset = rng.uniform(0, ptr_dist)`, `perm` = the `rng.shuffle(sel)`. -/
+section realsus
+variable {α : Type} [Add α] [Mul α] [Div α] [OfNat α 0] [NatCast α]
+  [LT α] [DecidableLT α] [LE α] [DecidableLE α]
+
+/-- RealSelectionConfiguration.sample_xconfig, whole -/
+def sampleRealSus (w : List α) (nc np : Nat) (sigma : List Nat) (offset : α) (perm : List Nat)
+    (orders rowperms : List (List Nat)) : Except String Rows :=
+  match Sampling.susDraws w [nc, np] sigma offset perm with
+  | .error e => .error e
+  | .ok sel => sampleReal sel nc np orders rowperms
+
+/-- RealMateSelectionConfiguration.sample_xconfig, whole -/
+def sampleMateRealSus (w : List α) (xmap : Rows) (nc : Nat) (sigma : List Nat) (offset : α)
+    (perm perm2 : List Nat) : Except String Rows :=
+  match Sampling.susDraws w [nc] sigma offset perm with
+  | .error e => .error e
+  | .ok sel => sampleMateReal sel xmap nc perm2
+
+end realsus
+
 /-! ### cross maps: core/util/array.py triuix / triudix / xmapix -/
 
 /-- `recurse(l, n, k)` with `st` the start of the next coordinate and `k` coordinates left to fill.
@@ -233,6 +258,39 @@ def ucIntegerBoundsPrerepair (nc np : Nat) (nmating : List Nat) (nx : Nat) : Exc
   let lower := List.replicate nx 0
   let upper := Np.repeatN nx (nmating.map (fun m => nc * np * m))
   if lower.length = upper.length then .ok (lower, upper) else .error "value"
+
+/-- the checks the Integer/Binary/Real problem constructors apply to the decision space handed over by a
+    protocol's `problem()`: `check_ndarray_dtype_is_integer(decn_space)` for integer problems (TypeError),
+    then `check_ndarray_shape_eq(decn_space, (2, ndecn))` (ValueError).  `boundsLen` = length of the
+    `decn_space_lower` / `decn_space_upper` arrays that were stacked. -/
+def vectorProblemBounds (needInt isInt : Bool) (ndecn boundsLen : Nat) : Except String Unit :=
+  if needInt && !isInt then .error "type"
+  else if boundsLen = ndecn then .ok () else .error "value"
+
+/-- ExpectedMaximumBreedingValueIntegerSelection.problem (as repaired by 95a1a100):
+      lower = numpy.repeat(0, len(xmap));
+      upper = numpy.repeat(self.ncross * self.nparent * int(numpy.max(self.nmating)), len(xmap))
+    — integer arrays of length `len(xmap)` for an integer problem with `ndecn = len(xmap)`;
+    `numpy.max` of an empty `nmating` raises. -/
+def embvIntegerBounds (nc np : Nat) (nmating : List Nat) (nx : Nat) : Except String (List Nat × List Nat) :=
+  match nmating with
+  | [] => .error "value"
+  | m :: ms =>
+    match vectorProblemBounds true true nx nx with
+    | .error e => .error e
+    | .ok _ => .ok (List.replicate nx 0, List.replicate nx (nc * np * ms.foldl max m))
+
+/-- the same lines before the repair (D55): `numpy.repeat(0.0, len(xmap))`, `numpy.repeat(1.0, len(xmap))`
+    — float arrays — handed to the *integer* problem -/
+def embvIntegerBoundsPrerepair (nx : Nat) : Except String Unit := vectorProblemBounds true false nx nx
+
+/-- FamilyEstimatedBreedingValue{Binary,Integer,Real}Selection.problem (as repaired by ff495eaf):
+    bounds of length `ntaxa` (`numpy.repeat(0, ntaxa)` …) and `ndecn = ntaxa`; `nparent` plays no role -/
+def familyVectorBounds (_nparent ntaxa : Nat) : Except String Unit := vectorProblemBounds true true ntaxa ntaxa
+
+/-- before the repair (D56): the same bounds with `ndecn = self.nparent` -/
+def familyVectorBoundsPrerepair (nparent ntaxa : Nat) : Except String Unit :=
+  vectorProblemBounds true true nparent ntaxa
 
 section trunc
 variable {α : Type} [LE α] [DecidableLE α]
